@@ -1,6 +1,8 @@
 //! Correspondence harness for the server side (C01-C06, C13 pieces).
 //! Same line protocol as ml/driver.ml: `<id> <op> <tokens...>` in, `<id> <result>` out.
 use std::io::{BufRead, Read, Write};
+use std::os::unix::net::UnixStream;
+use std::sync::atomic::Ordering;
 use std::panic::{catch_unwind, AssertUnwindSafe};
 use std::time::Duration;
 
@@ -105,6 +107,107 @@ fn socket_case(addr: &str, chunks: &[Vec<u8>], delay_us: u64) -> String {
     )
 }
 
+/// One run of varlink::listen with a timed client history (C15).
+/// listen_run <idle_s> <stop: none|<ms>> <initial> <max> <svc..> | <t_ms>:<hold_ms>:<request chunk hex> ...
+///   plus optional `steady:<from_ms>:<until_ms>:<every_ms>` clients that connect and close at once
+fn listen_run(rest: &[&str]) -> String {
+    use std::sync::atomic::{AtomicBool, Ordering};
+    use std::sync::Arc;
+    use std::time::Instant;
+    let idle: u64 = rest[0].parse().unwrap();
+    let stop_at: Option<u64> = if rest[1] == "none" { None } else { Some(rest[1].parse().unwrap()) };
+    let initial: usize = rest[2].parse().unwrap();
+    let maxw: usize = rest[3].parse().unwrap();
+    let (st, hist) = split_bar(&rest[4..]);
+    let spec = SvcSpec::parse(&st);
+    let n = SOCK_N.fetch_add(1, Ordering::SeqCst);
+    let dir = std::env::var("VH_TMP").unwrap_or("/verif/.build/tmp".to_string());
+    let _ = std::fs::create_dir_all(&dir);
+    let path = format!("{}/l-{}-{}.sock", dir, std::process::id(), n);
+    let addr = format!("unix:{}", path);
+    let stop = stop_at.map(|_| Arc::new(AtomicBool::new(false)));
+    let svc = spec.build(false);
+    let t0 = Instant::now();
+    let (a2, s2) = (addr.clone(), stop.clone());
+    let server = std::thread::spawn(move || {
+        let r = varlink::listen(
+            svc,
+            &a2,
+            &varlink::ListenConfig {
+                initial_worker_threads: initial,
+                max_worker_threads: maxw,
+                idle_timeout: idle,
+                stop_listening: s2,
+            },
+        );
+        let t = t0.elapsed().as_millis();
+        match r {
+            Ok(()) => format!("ok@{}", t),
+            Err(e) => format!("{}@{}", format!("{:?}", e.kind()).split('(').next().unwrap_or("?"), t),
+        }
+    });
+    let mut hs = Vec::new();
+    for h in hist.iter() {
+        let p: Vec<&str> = h.split(':').collect();
+        let path = path.clone();
+        if p[0] == "steady" {
+            let (from, until, every): (u64, u64, u64) = (p[1].parse().unwrap(), p[2].parse().unwrap(), p[3].parse().unwrap());
+            hs.push(std::thread::spawn(move || -> String {
+                let mut n = 0;
+                let mut last_ok = 0u128;
+                loop {
+                    let t = t0.elapsed().as_millis() as u64;
+                    if t >= until {
+                        break;
+                    }
+                    if t >= from {
+                        if let Ok(s) = UnixStream::connect(&path) {
+                            n += 1;
+                            last_ok = t0.elapsed().as_millis();
+                            drop(s);
+                        }
+                    }
+                    std::thread::sleep(Duration::from_millis(every));
+                }
+                format!("steady:{}:{}", n, last_ok)
+            }));
+            continue;
+        }
+        let (at, hold): (u64, u64) = (p[0].parse().unwrap(), p[1].parse().unwrap());
+        let req = unhex(p[2]);
+        hs.push(std::thread::spawn(move || -> String {
+            let t = t0.elapsed().as_millis() as u64;
+            if at > t {
+                std::thread::sleep(Duration::from_millis(at - t));
+            }
+            let mut s = match UnixStream::connect(&path) {
+                Ok(s) => s,
+                Err(_) => return format!("refused@{}", t0.elapsed().as_millis()),
+            };
+            let tc = t0.elapsed().as_millis();
+            let _ = s.write_all(&req);
+            std::thread::sleep(Duration::from_millis(hold));
+            let _ = s.shutdown(std::net::Shutdown::Write);
+            let mut out = Vec::new();
+            s.set_read_timeout(Some(Duration::from_secs(8))).unwrap();
+            let _ = s.read_to_end(&mut out);
+            format!("conn@{}:closed@{}:{}", tc, t0.elapsed().as_millis(), hex(&out))
+        }));
+    }
+    if let (Some(at), Some(flag)) = (stop_at, stop.as_ref()) {
+        let t = t0.elapsed().as_millis() as u64;
+        if at > t {
+            std::thread::sleep(Duration::from_millis(at - t));
+        }
+        flag.store(true, Ordering::SeqCst);
+    }
+    let ret = server.join().unwrap_or("PANIC".into());
+    let exists_after = std::path::Path::new(&path).exists();
+    let conns: Vec<String> = hs.into_iter().map(|h| h.join().unwrap_or("PANIC".into())).collect();
+    let _ = std::fs::remove_file(&path);
+    format!("ret={} sock_exists={} conns={}", ret, exists_after as u8, if conns.is_empty() { "-".to_string() } else { conns.join(";") })
+}
+
 fn main() {
     let stdin = std::io::stdin();
     let stdout = std::io::stdout();
@@ -142,6 +245,74 @@ fn main() {
                     let chunks: Vec<Vec<u8>> = ch.iter().map(|c| unhex(c)).collect();
                     socket_case(&servers[&key].addr, &chunks, delay)
                 }
+                "par" => {
+                    // par <max_workers> <svc..> | <kind>:<delay_us>:<chunk,chunk..> ...   (all connections concurrently)
+                    let maxw: usize = rest[0].parse().unwrap();
+                    let (st, conns) = split_bar(&rest[1..]);
+                    let spec = SvcSpec::parse(&st);
+                    let server = Server::start(&spec, maxw);
+                    let addr = server.addr.clone();
+                    let mut hs = Vec::new();
+                    let hold = std::sync::Arc::new(std::sync::atomic::AtomicBool::new(true));
+                    for c in conns.iter() {
+                        let p: Vec<&str> = c.splitn(3, ':').collect();
+                        let kind = p[0].to_string();
+                        let delay: u64 = p[1].parse().unwrap();
+                        let chunks: Vec<Vec<u8>> = if p[2].is_empty() { vec![] } else { p[2].split(',').map(|x| unhex(x)).collect() };
+                        let addr = addr.clone();
+                        let hold = hold.clone();
+                        hs.push(std::thread::spawn(move || -> String {
+                            match kind.as_str() {
+                                "normal" => socket_case(&addr, &chunks, delay),
+                                _ => {
+                                    // idle / silent / midmsg peers: connect, maybe send part of a message, keep the
+                                    // connection open until the others are done, then drop it abruptly
+                                    let s = match connect_abstract(&addr) {
+                                        Ok(s) => s,
+                                        Err(e) => return format!("CONNECT-ERROR {}", e),
+                                    };
+                                    let mut w = s.try_clone().unwrap();
+                                    for c in &chunks {
+                                        let _ = w.write_all(c);
+                                    }
+                                    if kind == "midmsg" {
+                                        drop(w);
+                                        drop(s);
+                                        return "out=- timeout=0 werr=0".to_string();
+                                    }
+                                    while hold.load(std::sync::atomic::Ordering::SeqCst) {
+                                        std::thread::sleep(Duration::from_millis(5));
+                                    }
+                                    "out=- timeout=0 werr=0".to_string()
+                                }
+                            }
+                        }));
+                    }
+                    let mut outs = Vec::new();
+                    let kinds: Vec<String> = conns.iter().map(|c| c.split(':').next().unwrap().to_string()).collect();
+                    // join the normal ones first, then release the lingering peers
+                    let mut results: Vec<Option<String>> = (0..hs.len()).map(|_| None).collect();
+                    let mut handles: Vec<Option<std::thread::JoinHandle<String>>> = hs.into_iter().map(Some).collect();
+                    for (i, k) in kinds.iter().enumerate() {
+                        if k == "normal" || k == "midmsg" {
+                            results[i] = Some(handles[i].take().unwrap().join().unwrap_or("PANIC".into()));
+                        }
+                    }
+                    hold.store(false, std::sync::atomic::Ordering::SeqCst);
+                    for i in 0..handles.len() {
+                        if let Some(h) = handles[i].take() {
+                            results[i] = Some(h.join().unwrap_or("PANIC".into()));
+                        }
+                    }
+                    for r in results {
+                        let r = r.unwrap();
+                        let f: Vec<&str> = r.split(' ').collect();
+                        outs.push(format!("{}/{}", f[0].trim_start_matches("out="), f.get(1).unwrap_or(&"").trim_start_matches("timeout=")));
+                    }
+                    drop(server);
+                    format!("outs={}", outs.join(";"))
+                }
+                "listen_run" => listen_run(rest),
                 "decode_request" => {
                     let f = unhex(rest[0]);
                     match serde_json::from_slice::<varlink::Request>(&f) {
